@@ -25,7 +25,7 @@ const WRAPPERS: &[&str] = &[
     "(call/cc (lambda (k) •))",
 ];
 
-const CALLS: &[&str] = &["direct", "apply", "eval"];
+const CALLS: &[&str] = &["direct", "apply", "eval", "apply-list-only", "apply-empty-list", "via-local-alias", "via-data"];
 
 #[derive(Clone, Copy, Debug)]
 struct Arity {
@@ -65,6 +65,10 @@ fn call(form: usize, callee: &str, a: Arity) -> String {
     match form {
         0 => format!("({} {})", callee, args.join(" ")),
         1 => format!("(apply {} {} (list {}))", callee, args[0], args[1..].join(" ")),
+        3 => format!("(apply {} (list {}))", callee, args.join(" ")),
+        4 => format!("(apply {} {} '())", callee, args.join(" ")),
+        5 => format!("((lambda (p) (p {})) {})", args.join(" "), callee),
+        6 => format!("((car (list {})) {})", callee, args.join(" ")),
         _ => format!("(eval (list '{} {}))", callee, args.join(" ")),
     }
 }
@@ -84,6 +88,9 @@ struct Loop {
     shape: usize, // 1 self, 2 two-cycle, 3 three-cycle
     fa: Arity,
     ga: Arity,
+    /// the second and third procedures are called odd? and even?: names that denote builtins when the first
+    /// procedure is compiled and closures when it runs
+    builtin_names: bool,
 }
 
 fn third(fa: Arity, ga: Arity) -> Arity {
@@ -93,7 +100,11 @@ fn third(fa: Arity, ga: Arity) -> Arity {
 /// Definitions of the loop (tail = true) or of its non-tail twin.
 fn definitions(l: &Loop, tail: bool) -> (String, String) {
     let sfx = if tail { "" } else { "t" };
-    let names = [format!("f{}", sfx), format!("g{}", sfx), format!("h{}", sfx)];
+    let names = if l.builtin_names && tail {
+        ["f".to_string(), "odd?".to_string(), "even?".to_string()]
+    } else {
+        [format!("f{}", sfx), format!("g{}", sfx), format!("h{}", sfx)]
+    };
     let ars = [l.fa, l.ga, third(l.fa, l.ga)];
     let mut defs = String::new();
     for i in 0..l.shape {
@@ -131,11 +142,19 @@ fn run_loop(st: &mut St, acc: &mut Acc, l: &Loop, big_n: Option<u64>) {
     let (tdefs, tstart) = definitions(l, false);
     beat(&defs);
     if st.im.is_none() || st.used >= 100 {
-        st.im = Some(Impl::new());
+        let mut im = Impl::new();
+        let _ = im.eval_text("(define orig-odd? odd?)");
+        let _ = im.eval_text("(define orig-even? even?)");
+        st.im = Some(im);
         st.used = 0;
     }
     st.used += 1;
     let im = st.im.as_mut().unwrap();
+    if l.builtin_names {
+        // the names denote the builtins again while the first procedure is compiled
+        let _ = im.eval_text("(define odd? orig-odd?)");
+        let _ = im.eval_text("(define even? orig-even?)");
+    }
     for f in parse_forms(&format!("{} {}", defs, tdefs)).expect("loop definitions parse") {
         if let ImplOut::Panic(m) = im.eval(&f) {
             acc.violation(Violation { key: format!("loop:{}", defs), class: Some("definition".into()), observed: "panic".into(), detail: json!({"session": [defs], "panic": m}) });
@@ -272,7 +291,11 @@ pub fn run(ctx: &Ctx) -> i32 {
                         } else {
                             None
                         };
-                        loops.push((Loop { chain: chain.clone(), call, shape, fa, ga }, big));
+                        loops.push((Loop { chain: chain.clone(), call, shape, fa, ga, builtin_names: false }, big));
+                        // the same cycle under names that denote builtins at compile time (direct calls, chains <= 1, 9 pairs)
+                        if shape >= 2 && call == 0 && depth <= 1 && nine_pairs.iter().any(|(a, b)| a.extra == fa.extra && a.rest == fa.rest && b.extra == ga.extra && b.rest == ga.rest) {
+                            loops.push((Loop { chain: chain.clone(), call, shape, fa, ga, builtin_names: true }, None));
+                        }
                     }
                 }
             }
@@ -314,7 +337,7 @@ pub fn run(ctx: &Ctx) -> i32 {
         return 3;
     }
     rep.rule = format!(
-        "Loops (define (f n acc p.. [. r]) (if (= n 0) acc CHAIN[call])) over: every chain of <= {} tail contexts with all 10x10 caller/callee arity pairs (0..4 extra parameters x fixed/rest) and every chain of <= {} with 9 pairs; {} tail contexts (if both arms, cond clause / else / =>, case clause / else, and, or, when, unless, let, let*, letrec, named let, begin, call/cc receiver); the call itself direct, through apply, or through eval (quick tier: apply/eval only up to the full-arity depth); self, two- and three-procedure recursion with different arities around the cycle = {} loops. Oracles: value = n for n = 10 and 1000 and equal to the non-tail twin (+ 0 CHAIN[call]); stack high-water mark (hook) at n = 1000 within 64 slots of n = 10{}; as anti-vacuity the twin's high-water mark (n = 250) must grow by >= 225 slots, and on a sub-grid the reference machine confirms constant continuation depth (the generated call really is a tail call). Non-trivial = a loop that passed all oracles.",
+        "Loops (define (f n acc p.. [. r]) (if (= n 0) acc CHAIN[call])) over: every chain of <= {} tail contexts with all 10x10 caller/callee arity pairs (0..4 extra parameters x fixed/rest) and every chain of <= {} with 9 pairs; {} tail contexts (if both arms, cond clause / else / =>, case clause / else, and, or, when, unless, let, let*, letrec, named let, begin, call/cc receiver); the call itself direct, through apply (some, all or none of the arguments in the final list), through eval, through a local alias of the callee, or with the callee taken out of a data structure (quick tier: apply/eval only up to the full-arity depth); self, two- and three-procedure recursion with different arities around the cycle (also with the later procedures named odd? / even?, builtins when the first one is compiled) = {} loops. Oracles: value = n for n = 10 and 1000 and equal to the non-tail twin (+ 0 CHAIN[call]); stack high-water mark (hook) at n = 1000 within 64 slots of n = 10{}; as anti-vacuity the twin's high-water mark (n = 250) must grow by >= 225 slots, and on a sub-grid the reference machine confirms constant continuation depth (the generated call really is a tail call). Non-trivial = a loop that passed all oracles.",
         max_full, max_nine, WRAPPERS.len(), n, if ctx.tier == Tier::Thorough { "; at n = 10^5 within 64 slots of n = 1000 for chains of depth <= 1 on the 9 pairs" } else { "" }
     );
     rep.extra("loops", json!(n));
